@@ -10,8 +10,11 @@ import (
 func init() { propChecks["C07"] = checkC07 }
 
 var c07Books = []absBook{
-	{{"k/r1", []absIng{{"cal", 2}, {"fat", 0.5}}}, {"k/r2", []absIng{{"k/r1", 2}, {"prot", -1}}}, {"r0", nil}, {"k", []absIng{{"cal", 3}, {"fat", 1}}}},
-	{{"k/r1", []absIng{{"cal", -1}, {"fat", 3}}}, {"k/r2", []absIng{{"cal", 2}, {"k/r1", 1}, {"cal", 1}}}, {"r0", []absIng{{"fat", 0}}}, {"k", []absIng{{"cal", 0.5}}}},
+	// book 0: k -> k/r2 -> k/r1 -> elements (three levels, first ingredient taken once; visited bottom-up under
+	// the default reverse map order), an empty recipe
+	{{"k/r1", []absIng{{"cal", 2}, {"fat", 0.5}}}, {"k/r2", []absIng{{"k/r1", 2}, {"prot", -1}}}, {"r0", nil}, {"k", []absIng{{"k/r2", 1}, {"cal", 3}, {"fat", 1}}}},
+	// book 1: r0 -> k/r2 -> k/r1 (visited top-down), repeated ingredient, zero coefficient
+	{{"k/r1", []absIng{{"cal", -1}, {"fat", 3}}}, {"k/r2", []absIng{{"k/r1", 1}, {"cal", 2}, {"cal", 1}}}, {"r0", []absIng{{"k/r2", 1}, {"fat", 0}}}, {"k", []absIng{{"cal", 0.5}}}},
 }
 
 // "k" is a recipe whose name is a path-prefix of k/r1 and k/r2; "u" of u/v
